@@ -51,6 +51,7 @@ ENTRIES = {
                    "-> [a[8,11)]; expected both hits (neighbour_mode=True returns both)"},
     "P14-replacer-itself-dropped-chain": {
         "ops": ["refine", "refine_neighbour"], "class": ["domain_overlaps_two_others"],
+        "clauses": ["dropped_hit_justified", "no_overlap_beyond_margin"],
         "what": "_remove_overlapping compares with the last kept hit only: a hit replaced by a better overlapping hit "
                 "stays dropped when that replacer is itself replaced/dropped later (A<B<C keeps only C although A and C "
                 "are disjoint); no small safe fix (needs a ranked, non-greedy pass)",
@@ -59,6 +60,7 @@ ENTRIES = {
                    "a[0,5) to survive as well"},
     "P14-replacer-itself-dropped-incomplete": {
         "ops": ["refine", "refine_neighbour"], "class": ["incomplete_hit_overlaps_a_domain"],
+        "clauses": ["dropped_hit_justified", "no_overlap_beyond_margin"],
         "what": "overlap removal runs before remove_incomplete: a short higher (or equal, earlier) scoring fragment "
                 "removes a complete overlapping domain and is then itself removed as incomplete; no small safe fix",
         "witness": "refine_hmmscan_results([QR([HSP('g','a',4,5,bitscore=3.), HSP('g','b',3,8,bitscore=2.)])], "
@@ -144,8 +146,7 @@ def main(directory):
                     elif row["op"] == "refine" and "same_profile_pair_too_far_to_merge" in row["features"]:
                         cured = [FIXABLE["F26"]]
                 for name in cured or FIXABLE.values():
-                    if row["op"] in ENTRIES[name]["ops"] or True:
-                        assigned[name][key] = row
+                    assigned[name][key] = row
             elif row["op"] == "remove_overlapping":
                 assigned["C13-N2-remove-overlapping-returns-first-hit-twice"][key] = row
             else:
@@ -159,7 +160,7 @@ def main(directory):
                 handle.write(json.dumps({"key": key, "op": rows[key]["op"], "clause": rows[key]["clause"]},
                                         sort_keys=True) + "\n")
         ops = sorted(set(meta["ops"]) | {row["op"] for row in rows.values()})
-        clauses = sorted({row["clause"] for row in rows.values()})
+        clauses = sorted({row["clause"] for row in rows.values()} | set(meta.get("clauses", [])))
         findings.append({"id": name, "properties": ["C13"], "ops": ops, "clauses": clauses, "what": meta["what"],
                          "witness": meta["witness"], "cases_file": cases_file, "class": meta["class"]})
         print(f"{name}: {len(rows)} cases, clauses {clauses}")
